@@ -371,9 +371,11 @@ def fuPollNext (s : Sys) (t : Nat) : Sys × FuPoll :=
                 else go fuel (polled + 1) yielded' s3
   go (2 * (len + s.bodies.length) + 4) 0 0 (s.modFU t fun fu => { fu with parentReg := true })
 
+/-- `Tasks::is_empty()` of task `t` -/
+def isEmpty (t : Nat) (s : Sys) : Bool := match s.getTask t with | some r => r.fu.linked.isEmpty | none => true
+
 /-- `Tasks::poll_next`: (ready, `is_empty()` afterwards) -/
 def tasksPollNext (s : Sys) (t : Nat) : Sys × Bool × Bool :=
-  let isEmpty (s : Sys) : Bool := match s.getTask t with | some r => r.fu.linked.isEmpty | none => true
   if !s.build.spawn then
     -- spawn_disabled.rs
     match (s.getTask t).bind (·.fu.linked.head?) with
@@ -382,7 +384,7 @@ def tasksPollNext (s : Sys) (t : Nat) : Sys × Bool × Bool :=
       let (s1, done) := pollBody s j (.direct t)
       if s1.panicked then (s1, false, false) else
       let s2 := if done then s1.modFU t fun fu => { fu with linked := [] } else s1
-      (s2, isEmpty s2, isEmpty s2)
+      (s2, isEmpty t s2, isEmpty t s2)
   else
     let rec go (fuel : Nat) (s : Sys) : Sys × Bool × Bool :=
       match fuel with
@@ -395,8 +397,8 @@ def tasksPollNext (s : Sys) (t : Nat) : Sys × Bool × Bool :=
         let s2 := { s1 with spawned := [] }.modFU t fun fu =>
           sp.foldl (fun fu c => { fu with linked := c :: fu.linked, queue := fu.queue ++ [c] }) fu
         match p with
-        | .pending => if sp.isEmpty then (s2, false, isEmpty s2) else go fuel s2
-        | .readyNone => if sp.isEmpty then (s2, true, isEmpty s2) else ((s2.emit [.other "!assert-not-spawned"]).panicNow, false, false)
+        | .pending => if sp.isEmpty then (s2, false, isEmpty t s2) else go fuel s2
+        | .readyNone => if sp.isEmpty then (s2, true, isEmpty t s2) else ((s2.emit [.other "!assert-not-spawned"]).panicNow, false, false)
         | .readySome => go fuel s2
     go (2 * s.bodies.length + 4) s
 
